@@ -228,6 +228,21 @@ def _notes_witness(tier, seed):
     import itertools
     n, t, e = types()
     from simfile.timing import Beat
+    # two calls in a row whose timing data differ only in the offset (or only in one list): each answers for its own data
+    from simfile.ssc import SSCSimfile
+    from simfile.timing import TimingData
+    stream = [n.Note(Beat(0), 0, n.NoteType.TAP), n.Note(Beat(2), 1, n.NoteType.TAP), n.Note(Beat(5), 2, n.NoteType.TAP)]
+    variants = []
+    for off, stops, warps in (("0.000", "1.000=0.500", "3.000=1.000"), ("1.250", "1.000=0.500", "3.000=1.000"), ("1.250", "", "3.000=1.000"), ("1.250", "", "")):
+        sf = SSCSimfile.blank()
+        sf.bpms, sf.offset, sf.stops, sf.warps = "0.000=120.000", off, stops, warps
+        variants.append(TimingData(sf))
+    for td in variants + list(reversed(variants)):
+        got = list(t.time_notes(stream, td, t.UnhittableNotes.TAP_TO_FAKE))
+        exp = expected_output(stream, e.TimingEngine(td), t.UnhittableNotes.TAP_TO_FAKE)
+        if got != exp:
+            return dict(input=dict(notes=[repr(x) for x in stream], offset=str(td.offset), stops=str(td.stops), warps=str(td.warps), history="after calls with other timing data"),
+                        detail=f"time_notes returned {got!r}; the statement prescribes {exp!r}")
     kinds = [n.NoteType.TAP, n.NoteType.HOLD_HEAD, n.NoteType.MINE]
     for opt in t.UnhittableNotes:
         for nt, player, ks, beat in itertools.product(kinds, (0, 1), (None, 5), (Beat(0), Beat(1), Beat(3, 2))):
